@@ -32,20 +32,23 @@ func (d D) Bytes(n int, label string) []byte {
 
 // StreamOpts steers GenStream.
 type StreamOpts struct {
-	FileType      int      // -1: draw one of the 17
-	Msgs          []uint16 // candidate known messages for data records (default: hosted by the file type)
-	MinRecs       int
-	MaxRecs       int
-	Unhosted      bool // also emit known messages the file type does not host
-	UnknownMsgs   bool
-	UnknownFlds   bool
-	DevFields     bool
-	Compressed    bool // compressed timestamp headers
-	Narrow        bool // narrower compatible definitions
-	BigEndian     bool // allow big-endian definitions
-	Redefine      bool // redefine local types freely
-	LongArrays    bool // arrays longer than the profile length
-	OddStrings    bool // non UTF-8 / unterminated strings
+	FileType    int      // -1: draw one of the 17
+	Msgs        []uint16 // candidate known messages for data records (default: hosted by the file type)
+	MinRecs     int
+	MaxRecs     int
+	Unhosted    bool // also emit known messages the file type does not host
+	UnknownMsgs bool
+	UnknownFlds bool
+	DevFields   bool
+	Compressed  bool // compressed timestamp headers
+	Narrow      bool // narrower compatible definitions
+	BigEndian   bool // allow big-endian definitions
+	Redefine    bool // redefine local types freely
+	LongArrays  bool // arrays longer than the profile length
+	OddStrings  bool // non UTF-8 / unterminated strings
+	// StrProfLen is set by the generator around a FieldBytes call: the fixed
+	// length the profile gives the string field being drawn (0: unknown)
+	StrProfLen    int
 	TimeBias      bool // favour timestamp fields and boundary time values (C12)
 	NoLocalTime   bool
 	FieldFilter   func(m uint16, fi *fitmodel.FieldInfo) bool                       // nil: all
@@ -327,6 +330,24 @@ func FieldBytes(d D, fd fitmodel.FieldDef, be bool, o *StreamOpts, timeHint *uin
 		return d.Bytes(int(fd.Size), "unk")
 	}
 	if bt.String {
+		if pl := o.StrProfLen; pl > 0 && int(fd.Size) > pl && d.Int(0, 3, "stail") == 0 {
+			// a field wider than the profile's fixed length, filled
+			// completely by a device that cuts a multi-byte character at its
+			// own field boundary: ASCII, then the first byte(s) of a 2-, 3-
+			// or 4-byte character at the very end, unterminated. The part a
+			// re-encode keeps (the first pl-1 bytes) is valid text, what
+			// follows it is not.
+			b := make([]byte, fd.Size)
+			for i := range b {
+				b[i] = 'A' + byte(i%26)
+			}
+			tail := [][]byte{{0xC3}, {0xE2, 0x82}, {0xF0, 0x9F, 0x98}, {0xE6}}[d.Int(0, 3, "stailkind")]
+			if len(tail) > int(fd.Size)-(pl-1) {
+				tail = tail[:int(fd.Size)-(pl-1)]
+			}
+			copy(b[len(b)-len(tail):], tail)
+			return b
+		}
 		return StringBytes(d, int(fd.Size), o.OddStrings)
 	}
 	if (kind == fitmodel.KindTimeUTC || kind == fitmodel.KindTimeLocal) && bt.Size == 4 && int(fd.Size) == 4 {
@@ -440,14 +461,34 @@ func GenStream(d D, o StreamOpts) (*fitmodel.Stream, *GenInfo) {
 			fidDef.Fields = append(fidDef.Fields, DrawFieldDef(d, fidMi.Fields[n], &o))
 		}
 	}
-	mkFileID := func() fitmodel.Rec {
-		r := fitmodel.Rec{Local: fidLocal}
+	if o.DevFields && d.Int(0, 7, "fiddev") == 0 {
+		// the file_id definition itself declares developer fields (record
+		// header 0x6L as the very first record)
+		fidDef.HasDev = true
+		for k := d.Int(0, 3, "fidndev"); k > 0; k-- {
+			fidDef.Dev = append(fidDef.Dev, fitmodel.DevFieldDef{Num: d.Byte("fiddn"), Size: byte(d.Int(0, 9, "fidds")), Idx: d.Byte("fiddi")})
+		}
+		info.Labels["file_id definition with developer fields"]++
+	}
+	mkFileID := func() (r fitmodel.Rec) {
+		r = fitmodel.Rec{Local: fidLocal}
+		defer func() {
+			for _, dv := range fidDef.Dev {
+				for k := 0; k < int(dv.Size); k++ {
+					r.Raw = append(r.Raw, byte(0xD0+k))
+				}
+			}
+		}()
 		for _, fd := range fidDef.Fields {
 			if fd.Num == 0 {
 				r.Raw = append(r.Raw, byte(ft))
 				continue
 			}
 			fi := fidMi.Fields[fd.Num]
+			o.StrProfLen = 0
+			if !fi.Array {
+				o.StrProfLen = fi.Length
+			}
 			r.Raw = append(r.Raw, FieldBytes(d, fd, fidBE, &o, nil, fi.Kind)...)
 		}
 		return r
@@ -713,8 +754,12 @@ func GenStream(d D, o StreamOpts) (*fitmodel.Stream, *GenInfo) {
 		mi := tab.Msgs[def.Global]
 		for _, fd := range def.Fields {
 			kind := 0
+			o.StrProfLen = 0
 			if mi != nil && mi.Fields[fd.Num] != nil {
 				kind = mi.Fields[fd.Num].Kind
+				if !mi.Fields[fd.Num].Array {
+					o.StrProfLen = mi.Fields[fd.Num].Length
+				}
 			}
 			if def.Global == 0 && fd.Num == 0 {
 				r.Raw = append(r.Raw, byte(ft))
